@@ -146,6 +146,12 @@ def directed(rng):
         # CancelRequest for one member of a batch reaches that member only (not its batch-mates, whatever their position)
         add('cancel-one-of-batch-%d' % v, {'conc': 4}, [S(call(1), call(2), note(), call(3)), D, dict(a='cancel', id=str(1 + v)), D, hret('m1.%d' % (1 + v + (1 if v == 2 else 0)), 'ctxerr'), D,
                                                         hret('m1.3'), D] + [hret('m1.%d' % i) for i in (1, 2, 4) if i != 1 + v + (1 if v == 2 else 0)] + [D])
+        # a batch with more runnable members than slots: whenever a slot is free a waiting member starts (work conservation within a batch)
+        add('batch-over-limit-%d' % v, {'conc': 2}, [S(call(1), call(2), call(3), note()), D, hret('m1.%d' % (1 + v % 2)), D, hret('m1.3'), D, hret('m1.%d' % (2 - v % 2)), hret('m1.4'), D])
+        add('batch-over-limit-c1-%d' % v, {'conc': 1}, [S(call(1), call(2)), D, hret('m1.1', OUTS_ERR[v]), D, hret('m1.2'), D])
+        # notifications of several array messages queued behind a running one when the server stops: still one message at a time
+        add('stop-keeps-note-order-%d' % v, {'conc': 4, 'recvUnblocks': bool(v % 2)}, [S(note()), D, S(note(), call(1), arr=True), S(note(), call(2), arr=True), S(note(), arr=True), D,
+                                                                                     [dict(a='stop'), dict(a='peerclose'), dict(a='stop')][v], D, hret('m1.1'), D, hret('m2.1'), D, hret('m3.1'), D, hret('m4.1'), D])
         # F2/F3: records after Stop
         add('f2-%d' % v, {}, [dict(a='stop'), D, dict(a='send', kind='garbage'), D])
         add('f2e-%d' % v, {}, [dict(a='stop'), D, dict(a='send', kind='empty'), D])
